@@ -95,6 +95,11 @@ type TableCell struct {
 	Properties *TableCellProperties `xml:"w:tcPr,omitempty"`
 	Paragraphs []Paragraph          `xml:"w:p"`
 	Tables     []Table              `xml:"w:tbl"` // 支持嵌套表格
+
+	// ContentOrder 段落('p')与嵌套表格('t')在单元格内的先后顺序，例如 "tp" 表示嵌套表格在段落之前。
+	// 只在打开的文档中嵌套表格出现在某个段落之前时由解析器设置；为空时先输出全部段落、再输出全部嵌套表格。
+	// 写回时先按此顺序输出，未被记录的（之后通过API追加的）段落和表格排在其后
+	ContentOrder string `xml:"-"`
 }
 
 // MarshalXML 自定义XML序列化，确保嵌套表格正确序列化
@@ -113,16 +118,32 @@ func (tc *TableCell) MarshalXML(e *xml.Encoder, start xml.StartElement) error {
 		}
 	}
 
-	// 序列化段落 <w:p>
-	for i := range tc.Paragraphs {
-		if err := e.Encode(&tc.Paragraphs[i]); err != nil {
+	// 先按记录的顺序输出（段落与嵌套表格可能交错）
+	pi, ti := 0, 0
+	for _, kind := range tc.ContentOrder {
+		if kind == 'p' && pi < len(tc.Paragraphs) {
+			if err := e.Encode(&tc.Paragraphs[pi]); err != nil {
+				return err
+			}
+			pi++
+		} else if kind == 't' && ti < len(tc.Tables) {
+			if err := e.Encode(&tc.Tables[ti]); err != nil {
+				return err
+			}
+			ti++
+		}
+	}
+
+	// 序列化其余段落 <w:p>
+	for ; pi < len(tc.Paragraphs); pi++ {
+		if err := e.Encode(&tc.Paragraphs[pi]); err != nil {
 			return err
 		}
 	}
 
-	// 序列化嵌套表格 <w:tbl>
-	for i := range tc.Tables {
-		if err := e.Encode(&tc.Tables[i]); err != nil {
+	// 序列化其余嵌套表格 <w:tbl>
+	for ; ti < len(tc.Tables); ti++ {
+		if err := e.Encode(&tc.Tables[ti]); err != nil {
 			return err
 		}
 	}
